@@ -1,5 +1,8 @@
+import HqModel.Props.C06Restart
 import HqModel.Props.WorkerSide
 import HqModel.Lemmas.CoreSteps
+import HqModel.Lemmas.CoreMsgWitness
+import HqModel.Lemmas.CoreMsgLoss
 /-!
 # C06 — one live execution per task; instance ids strictly increase
 
@@ -29,5 +32,140 @@ example : ∃ s', (State.lostRetracting
     [{ id := (1, 0), state := .retracting 5, inst := 3 }] {}) = .ok (s',
       { msgs := [.compute 7 [((1, 0), 4, some 0, [])]] }) :=
   c06_retracting_lost_increments _ 5 7 0 _ rfl rfl rfl
+
+/-! ## Message level: the instance ids the server SENDS, for all runs
+
+`Core.sends msgs` = the `(task id, instance id)` pairs of all `Msg.compute` messages of `msgs`, in message order
+(assignments, prefills, multi-node placements, redirect sends after a retract response / a reject / the loss of the
+worker a task was being retracted from); `Core.starts cbs` = the `(task id, instance id)` pairs of the `started`
+callbacks. `Core.NoIdReuse ops` = no task id is submitted (`newTasks`) twice in `ops` — decidable, a fact about the
+client of the core (HyperQueue attaches fresh ids, `C02.c02_submit_ids`); it cannot be dropped (`c06_reuse_witness`).
+No other side condition is needed: the theorems hold for ALL runs of the model, whatever the workers report.
+
+What is true and what is not:
+* the instance ids sent for one task NEVER DECREASE (`c06_sends_nondecreasing`) and never exceed the task's current
+  one (`c06_sent_le_current`);
+* they do NOT strictly increase: a task that a worker gave back WITHOUT starting it — successful retract
+  (`on_retract_response`), `task_reject` — is sent again with the SAME instance id (`c06_equal_resend_witness`: two
+  concrete runs satisfying every side condition). The server increments the instance id only when a task comes back
+  from a LOST worker (`lostPrefilled`, `lostAssigned`, the multi-node root arm, `lostRetracting`);
+* once the server has announced a start of instance `i` (`started` callback: the task is Running /
+  RunningMultiNode), every LATER send of that task carries a strictly larger instance id
+  (`c06_send_after_start`) — so an instance id is re-sent only while the server has not heard that it started;
+* finding (`c06_started_unsent_witness`): the instance id announced by `started` need not be one that was ever sent. -/
+
+/-- **The instance id of a task in the map never decreases** along any run in which the id is not submitted again
+(`s` = any reachable state, `ops` = any continuation). -/
+theorem c06_inst_never_decreases (pre ops : List Op) (s s' : State) (out out' : Out)
+    (hpre : Core.run {} pre = .ok (s, out)) (hrun : Core.run s ops = .ok (s', out'))
+    (id : TaskId) (hid : id ∉ Core.allNewIds ops) (t t' : Task)
+    (ht : s.task? id = some t) (ht' : s'.task? id = some t') : t.inst ≤ t'.inst :=
+  (Core.run_task_mono (Core.run_nodup hpre) hrun hid ht ht').1
+
+/-- **The instance ids sent for one task never decrease**: in the message history of every run from the empty core
+in which no task id is submitted twice, whenever two compute messages name the same task, the later one carries an
+instance id at least as large as the earlier one. -/
+theorem c06_sends_nondecreasing (ops : List Op) (s : State) (out : Out) (hr : Core.NoIdReuse ops)
+    (hrun : Core.run {} ops = .ok (s, out)) :
+    (Core.sends out.msgs).Pairwise fun p q => p.1 = q.1 → p.2 ≤ q.2 :=
+  (Core.Hist.of_run hr hrun).mono
+
+/-- **No sent instance id exceeds the task's current one**: after every such run, a task that is still in the map
+has an instance id at least as large as every instance id it was ever sent with. -/
+theorem c06_sent_le_current (ops : List Op) (s : State) (out : Out) (hr : Core.NoIdReuse ops)
+    (hrun : Core.run {} ops = .ok (s, out)) (p : TaskId × Nat) (hp : p ∈ Core.sends out.msgs)
+    (t : Task) (ht : s.task? p.1 = some t) : p.2 ≤ t.inst :=
+  (Core.Hist.of_run hr hrun).hi p hp t (Core.findTask_some_mem ht) (Core.findTask_some_id ht)
+
+/-- **After an announced start every later send is strictly larger**: if the server announced `started` for
+instance `i` of a task during the operations `pre`, then every compute message for that task emitted by a LATER
+operation carries an instance id `> i`. -/
+theorem c06_send_after_start (pre : List Op) (op : Op) (s s' : State) (out out' : Out)
+    (hr : Core.NoIdReuse pre) (hrun : Core.run {} pre = .ok (s, out)) (hstep : Core.step s op = .ok (s', out'))
+    (q p : TaskId × Nat) (hq : q ∈ Core.starts out.cbs) (hp : p ∈ Core.sends out'.msgs) (hpq : p.1 = q.1) :
+    q.2 < p.2 := by
+  have hh := Core.Hist.of_run hr hrun
+  obtain ⟨_, tr, _⟩ := Core.step_fx hh.nd hstep
+  obtain ⟨t, ht, hid, hle, hlk, _⟩ := tr.lo p hp
+  rcases hh.st q hq t ht (hid.trans hpq) with h | ⟨h1, h2⟩
+  · exact Nat.lt_of_lt_of_le h hle
+  · exact h1 ▸ hlk h2
+
+/-- **Every task that comes back from a lost worker gets a strictly larger instance id** — all of
+`on_remove_worker` at once, in every reachable state (side conditions `OpOk2` on the run that reached it): a task
+that before the loss of worker `w` was Assigned, Running or Prefilled on `w`, was being retracted from `w`, or was
+RunningMultiNode with root `w` — i.e. every task `w` may have started — has, if it is still in the map afterwards
+(it may have been failed by its crash limit), an instance id strictly larger than before. Generalises
+`c06_retracting_lost_increments` (one function, one task) to the whole operation and all five cases; with
+`c06_sent_le_current` / `c06_sends_nondecreasing`: every later send of such a task is strictly larger than every
+send before the loss. -/
+theorem c06_lost_worker_increments (pre : List Op) (s s' : State) (out out' : Out)
+    (w : Nat) (reason : String) (f : Bool) (order : List TaskId) (rets : List (List TaskId))
+    (hok : Core.RunOk Core.OpOk2 {} pre) (hpre : Core.run {} pre = .ok (s, out))
+    (hstep : Core.step s (.removeWorker w reason f order rets) = .ok (s', out'))
+    (id : TaskId) (t t' : Task) (ht : s.task? id = some t) (ht' : s'.task? id = some t')
+    (hst : (∃ v, t.state = .assigned w v) ∨ (∃ v, t.state = .running w v) ∨ t.state = .prefilled w ∨
+      t.state = .retracting w ∨ (∃ others, t.state = .runningMN (w :: others))) : t.inst < t'.inst :=
+  Core.removeWorker_bumped (Core.run_invF hok hpre) hstep ht ht' hst
+
+/-- non-vacuity: in `Core.crashOps` task (1,0) is Running on worker 1 with instance id 0 when the worker is lost;
+afterwards it is Waiting with instance id 1 -/
+example : Core.RunOk Core.OpOk2 {} Core.crashOps ∧
+    ((Core.run {} (Core.crashOps.take 6)).toOption.map fun r => r.1.tasks.map fun t => (t.id, t.state, t.inst, t.crashes)) =
+      some [((1, 0), .running 1 0, 0, 0)] ∧
+    ((Core.run {} Core.crashOps).toOption.map fun r => r.1.tasks.map fun t => (t.id, t.state, t.inst, t.crashes)) =
+      some [((1, 0), .waiting 0, 1, 1)] :=
+  ⟨Core.RunOk.mono (fun _ _ h => h.1.ok2) _ _ Core.crashOps_ok.1, Core.crashOps_ok.2.2, Core.crashOps_ok.2.1⟩
+
+/-- **Strictly increasing is FALSE for sends** — two runs that satisfy every side condition (`OpOk4`, no id
+submitted twice) in which the same task is sent twice with the same instance id 0: `Core.resendOps` (prefilled on
+worker 1, redirected to worker 2, worker 1 confirms the retract) and `Core.rejectOps` (assigned to worker 1, rejected
+by it, assigned to worker 2). In both the first worker states that it did not start the task; the harness monitor
+`c06.instance` checks on the real workers that LAUNCHES strictly increase. -/
+theorem c06_equal_resend_witness :
+    (Core.RunOk Core.OpOk4 {} Core.resendOps ∧ Core.NoIdReuse Core.resendOps ∧ ∃ s out,
+      Core.run {} Core.resendOps = .ok (s, out) ∧
+      Core.sends out.msgs = [((1, 1), 0), ((1, 0), 0), ((1, 2), 0), ((1, 1), 0)]) ∧
+    (Core.RunOk Core.OpOk4 {} Core.rejectOps ∧ Core.NoIdReuse Core.rejectOps ∧ ∃ s out,
+      Core.run {} Core.rejectOps = .ok (s, out) ∧ Core.sends out.msgs = [((1, 0), 0), ((1, 0), 0)]) := by
+  obtain ⟨a1, a2, a3⟩ := Core.resendOps_ok
+  obtain ⟨b1, b2, b3⟩ := Core.rejectOps_ok
+  obtain ⟨s, out, h1, h2, _⟩ := Core.runSends_some a3
+  obtain ⟨s', out', h1', h2', _⟩ := Core.runSends_some b3
+  exact ⟨⟨a1, a2, s, out, h1, h2⟩, ⟨b1, b2, s', out', h1', h2'⟩⟩
+
+/-- **`NoIdReuse` cannot be dropped**: the core accepts a task id again after the first record left the map; the
+second submission may carry a smaller instance id, and the sends of that id decrease (5, then 0). -/
+theorem c06_reuse_witness :
+    Core.RunOk Core.OpOk4 {} Core.reuseOps ∧ ¬ Core.NoIdReuse Core.reuseOps ∧ ∃ s out,
+      Core.run {} Core.reuseOps = .ok (s, out) ∧ Core.sends out.msgs = [((1, 0), 5), ((1, 0), 0)] ∧
+      ¬ (Core.sends out.msgs).Pairwise fun p q => p.1 = q.1 → p.2 ≤ q.2 := by
+  obtain ⟨a1, a2, a3⟩ := Core.reuseOps_ok
+  obtain ⟨s, out, h1, h2, _⟩ := Core.runSends_some a3
+  refine ⟨a1, a2, s, out, h1, h2, ?_⟩
+  rw [h2]; decide
+
+/-- **Finding — `started` may announce an instance id that was never sent**: in the run `Core.lossOps` (all side
+conditions hold) task (1,1) is sent exactly once, to worker 1, with instance id 0; while it is being retracted from
+worker 1 the redirect TARGET (worker 2) is lost and `on_remove_worker` increments the instance id of the task although
+worker 1 still holds it; worker 1 had started it and reports Running; the server announces `started (1,1)` with
+instance id 1. The worker executes (and streams output for) instance 0. -/
+theorem c06_started_unsent_witness :
+    Core.RunOk Core.OpOk4 {} Core.lossOps ∧ Core.NoIdReuse Core.lossOps ∧ ∃ s out,
+      Core.run {} Core.lossOps = .ok (s, out) ∧ ((1, 1), 1) ∈ Core.starts out.cbs ∧
+      ∀ i, ((1, 1), i) ∈ Core.sends out.msgs → i = 0 := by
+  obtain ⟨a1, a2, a3⟩ := Core.lossOps_ok
+  obtain ⟨s, out, h1, h2, h3⟩ := Core.runSends_some a3
+  refine ⟨a1, a2, s, out, h1, by rw [h3]; decide, ?_⟩
+  rw [h2]
+  intro i hi
+  simp at hi
+  exact hi
+
+/-- non-vacuity of the hypotheses of `c06_sends_nondecreasing` / `c06_send_after_start`: a run with a dependency,
+a start and two sends -/
+example : Core.NoIdReuse Core.depOps ∧
+    Core.runSends Core.depOps = some ([((1, 0), 0), ((1, 1), 0)], [((1, 0), 0)]) :=
+  ⟨Core.depOps_ok.2.1, Core.depOps_ok.2.2⟩
 
 end HqModel.C06
